@@ -87,16 +87,20 @@ class EcdhBounded:
         return result[0] == result[1] and len(result[0]) == size
 
 
-def ellswift_both_sides(a, b):
-    ea, eb = ellswift.create_var(a), ellswift.create_var(b)
+def ellswift_both_sides(a, b, ea, eb):
+    """the two sides of a BIP324 key exchange over given encodings, and what the encodings decode to"""
     return (ellswift.xdh(ea, eb, a, 0), ellswift.xdh(ea, eb, b, 1), ellswift.decode_var(ea), ellswift.decode_var(eb))
 
 
 def _gen_ell(rng):
-    return dict(a=rng.choice([1, 2, C.n - 1, rng.randrange(1, C.n)]), b=rng.choice([1, 3, C.n - 2, rng.randrange(1, C.n)]))
+    a = rng.choice([1, 2, C.n - 1, rng.randrange(1, C.n)])
+    b = rng.choice([1, 3, C.n - 2, rng.randrange(1, C.n)])
+    # the encodings are randomised: drawn once here, so that both arms are asked about the same ones
+    return dict(a=a, b=b, ea=ellswift.create_var(a), eb=ellswift.create_var(b))
 
 
-@contract("contracts.c_protocols.ellswift_both_sides", gen=_gen_ell, props="C16", n_quick=60, n_thorough=1500)
+@contract("contracts.c_protocols.ellswift_both_sides", gen=_gen_ell, props="C16 C04", both_arms=True, n_quick=60, n_thorough=1500,
+          rule="boundary and random keys; encodings drawn once per input")
 class EllSwiftBounded:
     def post_same_secret_and_keys(a, b, result):
         return result[0] == result[1] and result[2][0] == C.mul(a, C.G)[0] and result[3][0] == C.mul(b, C.G)[0]
